@@ -182,6 +182,14 @@ def run(chk, prog):
             chk.check(sg in (Sg.NNEG, Sg.POS), "R1", A.loc(fn, {"line": fin.line}), "each term %s of the sum is >= 0 (%s)" % (term_, sg), "updateCSR:intensity-term:%s" % sg)
             ix = [x for x in term_.atoms(sp.Indexed) if str(x.base) == "_csrspectrum"]
             okix = len(ix) == 1 and len(ix[0].indices) == 2 and ix[0].indices[0] == a.loops[0].sym and sm_.args[1] == 0 and E.norm(sm_.args[2]) == E.NMAX
+            if not ix and a.value is not None:
+                # the summand is not read back from the spectrum but is the very value stored into spectrum[n][i] in that iteration (held in
+                # a local), times a factor that does not depend on i
+                same = a.value.subs(a.loops[-1].sym, I.K_)
+                ratio = sp.simplify(term_ / same) if same != 0 else None
+                okix = ratio is not None and I.K_ not in ratio.free_symbols and Sg.sign(ratio, table2) in (Sg.NNEG, Sg.POS) and \
+                    sm_.args[1] == 0 and E.norm(sm_.args[2]) == E.NMAX
+                ix = ["the value stored to spectrum[n][i], times %s" % ratio]
             chk.check(okix, "R1", A.loc(fn, {"line": fin.line}), "the intensity of bunch n sums the spectrum of bunch n over all i (%s over [%s,%s))" % (ix, sm_.args[1], sm_.args[2]),
                       "updateCSR:intensity-index")
         terms = [None]
